@@ -3,6 +3,7 @@
 package vsync
 
 import (
+	"bytes"
 	"fmt"
 	"sort"
 	orig "sync"
@@ -200,6 +201,17 @@ func (p *Pool) Put(x interface{}) {
 			// later Gets hand it to two users at once
 			vrt.Hazard("object handed back to a sync.Pool twice (two later users will share it)")
 			break
+		}
+	}
+	// Whoever still uses the object - or memory it handed out - after the Put shares it with
+	// the next user. For byte buffers that is made visible at once: the returned buffer's
+	// whole backing array is overwritten, so a slice of it that is still referenced (a
+	// message body, a record about to be written) no longer carries what was put there.
+	if b, ok := x.(*bytes.Buffer); ok {
+		s := b.Bytes()
+		s = s[:cap(s)]
+		for i := range s {
+			s[i] = 0xDD
 		}
 	}
 	p.items = append(p.items, x)
